@@ -7,6 +7,7 @@ import (
 	"flag"
 	"fmt"
 	"os"
+	"os/exec"
 	"path/filepath"
 	"sort"
 	"strings"
@@ -35,6 +36,7 @@ func main() {
 		goos     = flag.String("goos", "", "GOOS for loading")
 		goarch   = flag.String("goarch", "", "GOARCH for loading")
 		jsonOut  = flag.String("json", "", "write obligations as JSON to this file")
+		auditDir = flag.String("audit-dir", "", "thorough tier: directory of self-audit variant catalogues")
 	)
 	flag.Parse()
 	start := time.Now()
@@ -66,7 +68,90 @@ func main() {
 		fmt.Fprintln(os.Stderr, "usage: grulecheck -property Cxx [-tier quick|thorough]")
 		os.Exit(2)
 	}
+	thoroughAuditDir = *auditDir
 	os.Exit(run(*prop, *tier, *repo, *evDir, *known, *overlayF, *rulesF, *listObl, *goos, *goarch, *jsonOut, start, ""))
+}
+
+var thoroughAuditDir string
+
+// crossConfigs are the additional GOOS/GOARCH configurations of the thorough tier (build-tagged files, 32-bit int).
+var crossConfigs = [][2]string{{"linux", "386"}, {"linux", "arm64"}, {"windows", "amd64"}, {"darwin", "arm64"}}
+
+// runMatrix re-runs the property's rules under each cross configuration in a subprocess.
+func runMatrix(prop, repo, knownPath string) ([]map[string]interface{}, []string) {
+	exe, err := os.Executable()
+	if err != nil {
+		return nil, nil
+	}
+	var out []map[string]interface{}
+	var violations []string
+	for _, cfg := range crossConfigs {
+		cmd := exec.Command(exe, "-property", prop, "-tier", "quick", "-repo", repo, "-evidence", "", "-known", knownPath, "-goos", cfg[0], "-goarch", cfg[1])
+		b, err := cmd.CombinedOutput()
+		rec := map[string]interface{}{"goos": cfg[0], "goarch": cfg[1]}
+		code := 0
+		if ee, ok := err.(*exec.ExitError); ok {
+			code = ee.ExitCode()
+		} else if err != nil {
+			code = 2
+		}
+		lines := strings.Split(strings.TrimSpace(string(b)), "\n")
+		rec["summary"] = lines[len(lines)-1]
+		switch code {
+		case 0:
+			rec["outcome"] = "held"
+		case 1:
+			rec["outcome"] = "violation"
+			for _, l := range lines {
+				if strings.HasPrefix(strings.TrimSpace(l), "violated") || strings.HasPrefix(strings.TrimSpace(l), "undecided") {
+					violations = append(violations, cfg[0]+"/"+cfg[1]+": "+strings.TrimSpace(l))
+				}
+			}
+		default:
+			rec["outcome"] = "skipped (configuration could not be loaded)"
+		}
+		out = append(out, rec)
+	}
+	return out, violations
+}
+
+// runSelfAudit runs the overlay-variant catalogue for the rules of this property; it never changes the exit code.
+func runSelfAudit(rules []string, repo, knownPath string) map[string]interface{} {
+	tmp, err := os.CreateTemp("", "grulecheck-audit-*.json")
+	if err != nil {
+		return map[string]interface{}{"error": err.Error()}
+	}
+	tmp.Close()
+	defer os.Remove(tmp.Name())
+	script := filepath.Join(filepath.Dir(thoroughAuditDir), "tools", "audit.py")
+	files, _ := filepath.Glob(filepath.Join(thoroughAuditDir, "*.json"))
+	args := append([]string{script, "-j", "8", "--rules", strings.Join(rules, ","), "--json", tmp.Name(), "--known", knownPath}, files...)
+	cmd := exec.Command("python3", args...)
+	cmd.Env = append(os.Environ(), "VERIF_REPO="+repo)
+	_, _ = cmd.CombinedOutput()
+	b, err := os.ReadFile(tmp.Name())
+	if err != nil || len(b) == 0 {
+		return map[string]interface{}{"error": "audit produced no result"}
+	}
+	var res struct {
+		Results []map[string]interface{} `json:"results"`
+		Tally   map[string]int           `json:"tally"`
+	}
+	if err := json.Unmarshal(b, &res); err != nil {
+		return map[string]interface{}{"error": err.Error()}
+	}
+	var notable []map[string]interface{}
+	for _, r := range res.Results {
+		if o, _ := r["outcome"].(string); o != "killed" && o != "silent" {
+			notable = append(notable, r)
+		}
+	}
+	return map[string]interface{}{
+		"explanation": "variants of /repo applied through packages.Config.Overlay (no copy on disk): `killed` = a breaking variant was reported naming the expected rule, `silent` = a behaviour-preserving variant raised no alarm, `skipped` = the variant's text no longer occurs in the current tree; this is evidence about the checker and never changes the check's exit code",
+		"variants":    len(res.Results),
+		"tally":       res.Tally,
+		"notable":     notable,
+	}
 }
 
 func run(prop, tier, repo, evDir, knownPath, overlayF, rulesF string, listObl bool, goos, goarch, jsonOut string, start time.Time, onlyKey string) int {
@@ -180,16 +265,43 @@ func run(prop, tier, repo, evDir, knownPath, overlayF, rulesF string, listObl bo
 		}
 		fmt.Printf("VIOLATION property=%s replay=%s\n", prop, path)
 	}
+	var matrix []map[string]interface{}
+	var audit map[string]interface{}
+	matrixViolations := 0
+	if tier == "thorough" && goos == "" && goarch == "" && overlayF == "" && onlyKey == "" {
+		var mv []string
+		matrix, mv = runMatrix(prop, abs, knownPath)
+		for i, l := range mv {
+			path := "-"
+			if vdir != "" {
+				path = filepath.Join(vdir, fmt.Sprintf("cross-%d.json", i+1))
+				_ = writeJSON(path, map[string]interface{}{"property": prop, "tier": tier, "cross_configuration_finding": l})
+			}
+			fmt.Printf("  %s\n", l)
+			fmt.Printf("VIOLATION property=%s replay=%s\n", prop, path)
+		}
+		matrixViolations = len(mv)
+		if thoroughAuditDir != "" {
+			audit = runSelfAudit(rules, abs, knownPath)
+		}
+	}
 	wall := time.Since(start).Seconds()
 	if evDir != "" && onlyKey == "" {
 		ev := buildEvidence(prop, tier, c, rules, discharged, viol, knownHit, wall)
+		if matrix != nil {
+			ev.Coverage["configurations"] = matrix
+		}
+		if audit != nil {
+			ev.Coverage["self_audit"] = audit
+		}
+		ev.Violations += matrixViolations
 		if err := writeJSON(filepath.Join(evDir, prop+".json"), ev); err != nil {
 			fmt.Fprintln(os.Stderr, "evidence:", err)
 			return 2
 		}
 	}
 	fmt.Printf("%s %s: %d obligations, %d discharged, %d known findings, %d violations, %d rules, %.1fs\n", prop, tier, len(c.Obls), discharged, len(knownHit), len(viol), len(rules), wall)
-	if len(viol) > 0 {
+	if len(viol) > 0 || matrixViolations > 0 {
 		return 1
 	}
 	return 0
